@@ -343,6 +343,23 @@ func c15ReplySession(r *core.Run) {
 	}
 	info := f.Pkg.TypesInfo
 	n := 0
+	// the reply is addressed with the id it was asked to answer, whatever its value (0 is a legitimate id: the
+	// coordinator's counter wraps around to it)
+	var idParam types.Object
+	for _, p := range paramObjs(f) {
+		if b, ok := p.Type().Underlying().(*types.Basic); ok && b.Info()&types.IsInteger != 0 {
+			idParam = p
+		}
+	}
+	for _, cs := range w.Calls(f) {
+		if cs.Static == nil || core.RecvNamed(cs.Static) == nil || core.RecvNamed(cs.Static).Obj().Name() != "GettyRemoting" || !strings.HasPrefix(cs.Static.Name(), "Send") || len(cs.Call.Args) == 0 {
+			continue
+		}
+		r.Sites++
+		id, ok := litFieldOrigin(f, cs.Call.Args[0], "ID", 4)
+		r.Check(ok && idParam != nil && id == "param:"+idParam.Name(), "C15.echo", core.ShortKey(f.Obj)+" sends the reply under the id it was handed", w.Pos(cs.Call.Pos()), id,
+			"the id of the reply frame derives from "+id+", not from the message id the processor handed in unchanged: for some id values (0: the coordinator's counter wraps around to it) the reply goes out under another id, the coordinator cannot match it to its request and a different request may receive two replies")
+	}
 	for _, cs := range w.Calls(f) {
 		if cs.Static == nil || core.RecvNamed(cs.Static) == nil || core.RecvNamed(cs.Static).Obj().Name() != "GettyRemoting" || !strings.HasPrefix(cs.Static.Name(), "Send") {
 			continue
